@@ -1,18 +1,21 @@
 import JugModel.Props.C11
 import JugModel.Props.WorkerBridge
-#print axioms Jug.C11.failure_stores_nothing
-#print axioms Jug.C11.failed_cannot_dump
-#print axioms Jug.C11.publish_needs_normal_return
+#print axioms Jug.C11.cleanup_failed_reenables
 #print axioms Jug.C11.dependents_never_start
 #print axioms Jug.C11.exit_nonzero_after_failure
 #print axioms Jug.C11.exit_zero_without_failure
-#print axioms Jug.C11.failures_sticky
+#print axioms Jug.C11.failedT_iff
+#print axioms Jug.C11.failed_cannot_dump
 #print axioms Jug.C11.failed_cannot_exit_holding
-#print axioms Jug.C11.failed_unlock
-#print axioms Jug.C11.failed_mark
-#print axioms Jug.C11.keep_going_continues
 #print axioms Jug.C11.failed_lock_blocks
 #print axioms Jug.C11.failed_lock_no_begin
 #print axioms Jug.C11.failed_lock_persists
-#print axioms Jug.C11.cleanup_failed_reenables
+#print axioms Jug.C11.failed_mark
+#print axioms Jug.C11.failed_unlock
+#print axioms Jug.C11.failure_stores_nothing
+#print axioms Jug.C11.failures_sticky
+#print axioms Jug.C11.keep_going_completes_independents
+#print axioms Jug.C11.keep_going_continues
+#print axioms Jug.C11.publish_needs_normal_return
 #print axioms Jug.WorkerBridge.worker_conforms
+#print axioms Jug.WorkerBridge.worker_scans_all
